@@ -353,6 +353,20 @@ func enumerateWorld(w *world, fullLen, maxLen int) []seqCase {
 					}
 				}
 				rec(nil, full, fullLen)
+				if maxLen == fullLen && warm != "bare" && !wildcard[t] && !managed[t] && !namedWildcard[t] {
+					// quick tier only (thorough enumerates all of length 3): the length-3 sequences that start with an
+					// unsubscribe of the warmed type, i.e. every way of re-opening a type whose record the server has
+					// deleted while the client still holds its nonce
+					unsubscribe := letter{Type: t, Names: 0, Nonce: "current"}
+					for _, l2 := range reduced {
+						for _, l3 := range reduced {
+							if l2.Push && l3.Push {
+								continue
+							}
+							out = append(out, seqCase{world: w.name, proto: proto, warm: warm, seq: []letter{unsubscribe, l2, l3}})
+						}
+					}
+				}
 				if maxLen > fullLen {
 					// only the sequences longer than fullLen are new
 					var rec2 func(prefix []letter)
@@ -709,6 +723,12 @@ type typeState struct {
 	// client presents when it (re)opens a watch as the stream's last one, a request with a nonce other than the
 	// client's latest is unspecified in this state instead of must-be-silent.
 	noRespSinceOpen bool
+	// openedNonceless: a SotW client that holds a nonce of the type (re)opened it with an EMPTY nonce - declaring that
+	// it holds none - and the server sent nothing in reply. A later request presenting the nonce from before that
+	// (re)open contradicts the client's own declaration: it is neither "current" nor "stale" in the property's sense,
+	// so it is unspecified (and makes the type unknown if it carries a subscription change). Cleared by the next
+	// response of the type. A conformant client re-opens with the nonce it holds; that path stays must-respond.
+	openedNonceless bool
 }
 
 func (st *typeState) causeSuffix() string {
@@ -1170,6 +1190,8 @@ func runSequence(c *vh.Ctx, s *server, sc seqCase, conID int) bool {
 			}
 		case effKind == "current":
 			switch {
+			case st.openedNonceless:
+				exp = unspecified // the client itself declared it holds no nonce when it (re)opened the type
 			case st.forceNext && len(added) == 0 && (sc.proto == "sotw" || !removedAny):
 				exp = unspecified // documented forced response to let clusters finish warming
 			case len(added) == 0 && !removedAny:
@@ -1206,7 +1228,7 @@ func runSequence(c *vh.Ctx, s *server, sc seqCase, conID int) bool {
 			ts := cl.ts[cl.short(r.TypeURL)]
 			if ts != nil {
 				ts.nonces = append(ts.nonces, r.Nonce)
-				ts.reopenedSilent, ts.noRespSinceOpen = false, false
+				ts.reopenedSilent, ts.noRespSinceOpen, ts.openedNonceless = false, false, false
 			}
 		}
 		c.Count("stimuli", 1)
@@ -1254,8 +1276,12 @@ func runSequence(c *vh.Ctx, s *server, sc seqCase, conID int) bool {
 		if nT == 0 && !nack && !unsub && (isFirst || wasUnknown || (sc.proto == "sotw" && effKind == "empty")) {
 			st.noRespSinceOpen = true
 		}
-		if !wildcard[t] && (nack || effKind == "stale" || effKind == "garbage") && (len(added) > 0 || removedAny || isFirst) {
+		if !wildcard[t] && (nack || effKind == "stale" || effKind == "garbage" || (effKind == "current" && st.openedNonceless)) && (len(added) > 0 || removedAny || isFirst) {
 			st.unknown = true
+		}
+		if nT == 0 && !nack && !unsub && sc.proto == "sotw" && effKind == "empty" && len(st.nonces) > 0 {
+			st.openedNonceless = true
+			conformant = false // a conformant client re-opens a type with the nonce it holds for it
 		}
 		if st.unknown && !nack {
 			// a request for a type whose record is not known may have created it anew: for the CDS-like type of the
@@ -1409,7 +1435,7 @@ func runSequence(c *vh.Ctx, s *server, sc seqCase, conID int) bool {
 			}
 			if ts := cl.ts[cl.short(r.TypeURL)]; ts != nil {
 				ts.nonces = append(ts.nonces, r.Nonce)
-				ts.reopenedSilent, ts.noRespSinceOpen = false, false
+				ts.reopenedSilent, ts.noRespSinceOpen, ts.openedNonceless = false, false, false
 			}
 		}
 		c.Count("stimuli", 1)
@@ -1547,7 +1573,7 @@ func runSequence(c *vh.Ctx, s *server, sc seqCase, conID int) bool {
 				per[t]++
 				if ts := cl.ts[t]; ts != nil {
 					ts.nonces = append(ts.nonces, r.Nonce)
-					ts.reopenedSilent, ts.noRespSinceOpen = false, false
+					ts.reopenedSilent, ts.noRespSinceOpen, ts.openedNonceless = false, false, false
 				}
 			}
 			c.Count("pushes", 1)
@@ -1633,7 +1659,7 @@ func runSequence(c *vh.Ctx, s *server, sc seqCase, conID int) bool {
 				if ts := cl.ts[cl.short(r.TypeURL)]; ts != nil {
 					ts.nonces = append(ts.nonces, r.Nonce)
 					ts.forceNext = false
-					ts.reopenedSilent, ts.noRespSinceOpen = false, false
+					ts.reopenedSilent, ts.noRespSinceOpen, ts.openedNonceless = false, false, false
 				}
 			}
 			c.Count("ack_rounds", 1)
